@@ -172,17 +172,19 @@ class SvsInst:
             self.agg_sv[rsv_id] = max(asv_seq, rsv_seq)
 
     async def on_timer(self):
-        while self.running:
+        # The event of the start() this task belongs to: after stop() and another start() a newer task has taken over
+        rst_event = self.timer_rst_event
+        while self.running and self.timer_rst_event is rst_event:
             try:
                 # Timer reset event
-                await aio.wait_for(self.timer_rst_event.wait(), timeout=max(self.next_sync_timing - time.time(), 0))
-                self.timer_rst_event.clear()
+                await aio.wait_for(rst_event.wait(), timeout=max(self.next_sync_timing - time.time(), 0))
+                rst_event.clear()
             except aio.CancelledError:
                 break
             except TimeoutError:
                 # The real timer triggered
                 # Note: this part is non-blocking
-                if not self.running:
+                if not self.running or self.timer_rst_event is not rst_event:
                     return
                 necessary = True
                 if self.state == SvsState.SyncSuppression:
@@ -194,7 +196,7 @@ class SvsInst:
                             break
                 if necessary:
                     self.express_sync_interest()
-                self.timer_rst_event.clear()
+                rst_event.clear()
                 self.next_sync_timing = time.time() + self.sample_sync_timer()
 
     def express_sync_interest(self):
